@@ -43,6 +43,7 @@ var (
 	tracebackBlacklist = map[string]bool{
 		"pgregory.net/rapid.(*customGen[...]).maybeValue.func1": true,
 		"pgregory.net/rapid.runAction.func1":                    true,
+		"pgregory.net/rapid.(*T).runCleanup.func1":              true,
 	}
 )
 
@@ -368,6 +369,9 @@ func checkOnce(t *T, prop func(*T)) (err *testError) {
 	}
 	defer func() {
 		err = panicToError(recover(), 3)
+		if err == nil {
+			err = t.skippedError() // skip requested by a cleanup function
+		}
 		if err == nil || err.isInvalidData() {
 			err = t.failedError(err) // non-fatal failure signaled from a cleanup function or before a skip
 		}
@@ -523,7 +527,8 @@ type T struct {
 	refDraws []any
 	mu       sync.RWMutex
 	failed   stopTest
-	parent   *T // set for T passed to Custom generator function
+	skipped  *invalidData // skip requested by a cleanup function
+	parent   *T           // set for T passed to Custom generator function
 }
 
 func newT(tb tb, s bitStream, tbLog bool, rawLog *log.Logger, refDraws ...any) *T {
@@ -673,8 +678,33 @@ func (t *T) cleanup() {
 			break
 		}
 
-		cleanup()
+		t.runCleanup(cleanup)
 	}
+}
+
+// runCleanup calls a cleanup function. A skip requested by it is honored when the test case ends,
+// but must not replace a failure (panic) which is already in flight.
+func (t *T) runCleanup(cleanup func()) {
+	defer func() {
+		if r := recover(); r != nil {
+			skip, ok := r.(invalidData)
+			if !ok {
+				panic(r)
+			}
+
+			root := t
+			for root.parent != nil {
+				root = root.parent
+			}
+			root.mu.Lock()
+			if root.skipped == nil {
+				root.skipped = &skip
+			}
+			root.mu.Unlock()
+		}
+	}()
+
+	cleanup()
 }
 
 func (t *T) Logf(format string, args ...any) {
@@ -805,6 +835,17 @@ func (t *T) failedError(err *testError) *testError {
 	}
 
 	return &testError{data: t.failed, traceback: "    <non-fatal failure>\n"}
+}
+
+func (t *T) skippedError() *testError {
+	t.mu.RLock()
+	defer t.mu.RUnlock()
+
+	if t.skipped == nil {
+		return nil
+	}
+
+	return &testError{data: *t.skipped, traceback: "    <skipped by a cleanup function>\n"}
 }
 
 func (t *T) failOnError() {
